@@ -163,7 +163,9 @@ def oracle_cases(cases, impl):
             out.append("uri\tchk\t%s\t%s" % (f[2], o))
         elif f[1] == "np":
             out.append("uri\tchkport\t%s\t%s" % (f[2], o))
-        elif f[1] in ("hp", "full"):
+        elif f[1] == "full":
+            out.append("uri\tchkfull\t%s\t%s" % (f[2], o))
+        elif f[1] == "hp":
             d = fields(o)
             if d.get("o", "N") != "N" and "n" in d:
                 out.append("uri\tchkport\t%s\t%s" % (d["o"], o))
@@ -220,13 +222,15 @@ def run_suite(ctx, name, cases, tally):
         f1 = c.split("\t", 2)[1]
         agree = impl[i] == model[i]
         v = verdict.get(i)
-        if f1 == "p":
+        if f1 in ("p", "full"):
+            # htp_parse_uri is involved: the proved domain is the premise no_junk_after_bracketb
             prem = v is not None and v[0] == "1"
             ok = v is not None and v[1:] == "1"
             if prem:
                 tally.n_oracle += 1
                 if not ok:
-                    tally.inside.append((c, impl[i], model[i], "oracle check_C13 fails on the implementation's output"))
+                    tally.inside.append((c, impl[i], model[i], "oracle %s fails on the implementation's output" %
+                                         ("check_C13" if f1 == "p" else "check_C13_port")))
                 elif not agree:
                     tally.inside.append((c, impl[i], model[i], "implementation differs from the model inside the proved premise"))
             else:
@@ -345,8 +349,12 @@ def replay(ctx, path):
     print("oracle on implementation (premise,check):", v)
     bad = impl != model
     if v is not None:
-        if c.split("\t")[1] == "p":
-            bad = bad or (v[0] == "1" and v[1:] != "1")
+        if c.split("\t")[1] in ("p", "full"):
+            inside = v[0] == "1"
+            bad = (inside and (v[1:] != "1" or impl != model))
+            if not inside and impl != model:
+                print("disagreement outside the proved premise (territory of the known finding): no failing input")
+                bad = True
         else:
             bad = bad or v != "1"
     return 1 if bad else 0
